@@ -231,10 +231,10 @@ func opsStrings(seq []op) []string {
 // structOK: the part of the caller contract that depends only on the number of live snapshots
 // and on whether IntermediateRoot has been taken on this StateDB (rooted): every caller in the
 // repository takes the root at the very end of a block and then only commits / discards the
-// StateDB, so after "iroot" only another root or commit+reopen may follow.
+// StateDB, so after "iroot" only commit+reopen may follow.
 func structOK(o op, live int, rooted bool, maxDepth int) bool {
 	if rooted {
-		return o.k == opIRoot || o.k == opCommitReopen
+		return o.k == opCommitReopen
 	}
 	switch o.k {
 	case opSnapshot:
@@ -387,11 +387,17 @@ func readDump(s *state.StateDB, nAddr int, thashes []common.Hash) (d dumpD) {
 }
 
 // takeCommit ends the history here the way the block processor does (destructive).
-func takeCommit(env *c12aEnv, s *state.StateDB, nAddr int, thashes []common.Hash, persist bool) *commitD {
+func takeCommit(r *runner, persist bool) *commitD {
+	env, s, nAddr, thashes := r.env, r.s, r.nAddr, r.thashes
 	c := &commitD{}
-	s.Finalize(true)
-	c.Root = s.IntermediateRoot(true)
-	size := new(big.Int).Set(s.GetQuaiTrieSize()) // the value the header records (QuaiStateSize)
+	var size *big.Int
+	if r.rootedSize != nil { // the history ended with "iroot": that root and size are the recorded ones
+		c.Root, size = r.rootedRoot, r.rootedSize
+	} else {
+		s.Finalize(true)
+		c.Root = s.IntermediateRoot(true)
+		size = new(big.Int).Set(s.GetQuaiTrieSize()) // the value the header records (QuaiStateSize)
+	}
 	c.TrieSize = size.String()
 	c.After = readDump(s, nAddr, thashes)
 	if !persist {
@@ -548,7 +554,13 @@ type runner struct {
 	thashes []common.Hash
 	nLogs   int
 
-	effective bool // some revert undid an observable change (obsFull only)
+	// root and QuaiStateSize recorded by the (first) IntermediateRoot of the current StateDB:
+	// ValidateState / Finalize read the size right after that root and put it into the header;
+	// the value of the counter after the second IntermediateRoot inside Commit is never used.
+	rootedRoot common.Hash
+	rootedSize *big.Int
+
+	effective bool // some revert undid an observable change (observed runs only)
 	exclude   bool // known finding fpSuicideSize is listed: do not revert across a poisoned suicide
 	excluded  bool
 }
@@ -642,14 +654,19 @@ func (r *runner) apply(o op) bool {
 		r.thashes = append(r.thashes, th)
 		s.Prepare(th, r.txn)
 	case opIRoot:
-		s.IntermediateRoot(true)
+		r.rootedRoot = s.IntermediateRoot(true)
+		r.rootedSize = new(big.Int).Set(s.GetQuaiTrieSize())
 		r.live = r.live[:0]
 	case opCommitReopen:
 		// block end as in the repository: ValidateState takes IntermediateRoot and the header
 		// records GetQuaiTrieSize() at that moment; then Commit; the next block opens a fresh
 		// StateDB at (root, recorded size).
-		s.IntermediateRoot(true)
-		size := new(big.Int).Set(s.GetQuaiTrieSize())
+		size := r.rootedSize
+		if size == nil {
+			s.IntermediateRoot(true)
+			size = new(big.Int).Set(s.GetQuaiTrieSize())
+		}
+		r.rootedSize = nil
 		root, err := s.Commit(true)
 		if err != nil {
 			panic(fmt.Sprintf("HARNESS: Commit failed: %v", err))
@@ -802,7 +819,7 @@ func commitOf(env *c12aEnv, ini *initState, nAddr int, seq []op, persist, exclud
 			return nil, i, r.excluded
 		}
 	}
-	return takeCommit(env, r.s, nAddr, r.thashes, persist), -1, false
+	return takeCommit(r, persist), -1, false
 }
 
 // shadowOracle compares the commitment of a history with the commitment of the history without
